@@ -57,7 +57,8 @@ pub fn gen_vector_sets(rng: &mut Rng, n: usize, go: &imvt::GenOpts, mixed_comp: 
 			let m = ((1u64 << z) - 1) as i64;
 			let (ax, ay) = anchors[z];
 			let (ox, oy) = (rng.range_i(-2, 2), rng.range_i(-2, 2));
-			for dx in 0..rng.range(1, 4) as i64 {
+			let wide = rng.chance(0.15);
+			for dx in 0..(if wide { rng.range(30, 40) } else { rng.range(1, 4) }) as i64 {
 				for dy in 0..rng.range(1, 4) as i64 {
 					let (x, y) = (ax as i64 + ox + dx, ay as i64 + oy + dy);
 					if x < 0 || y < 0 || x > m || y > m || !rng.chance(0.8) {
